@@ -46,7 +46,14 @@ from the separators.
                 twice, no value referenced by two separators).
   R8_jointCheck_sound  the executable check the driver runs on dumps of the real column
                 (`c04b phys inv`) implies `JointInv`.
-  R8_tx_partial  NOT full: a whole `BTreeBatch` transaction (node splits / merges) is covered only
+  R8_tx_insert_root_leaf / R8_tx_remove_root_leaf / R8_tx_move_root_leaf   whole transactions WITHOUT
+                any hypothesis about the final column, for trees whose root is a leaf (header depth 0):
+                Set of an absent key that fits (no split), removal that keeps ORDER/2 separators (no
+                rebalance), Set whose value moves to another tier; each as `write_plan` runs it in its
+                write-back order (value, leaf in place or moved, header if the root moved), each stating
+                `JointInv` of the final column for the tree of the abstract `C04.applyChanges` and the
+                physical `get` of every key = lookup in the abstract enumeration.
+  R8_tx_partial  NOT full (deeper trees, splits, merges): a whole `BTreeBatch` transaction (node splits / merges) is covered only
                 as a sequence of primitive steps each of which keeps `ColInv`; that the sequence of
                 steps `write_sorted_changes` performs ends in a column whose abstraction is the tree
                 of `C04.applyChangesB` with exactly the tracked owners is the hypothesis `hfinal`
@@ -59,7 +66,7 @@ runs `physHeader`, `physGetRaw` (every key of the case, present and absent, agai
 `Db::get`) and `jointCheck`; `c04b phys put` runs `physWriteValue` / `physWriteNode` against a real
 single-key transaction (resulting raw tables compared slot by slot).
 -/
-import Pdb.Proofs.RefineBt5
+import Pdb.Proofs.RefineBt6
 import Pdb.Proofs.C04PipeTree
 import Pdb.Props.C04
 import Pdb.Props.C04d
@@ -131,7 +138,8 @@ theorem R8_step_insert (cp : Cmp) (c : PCol) (own : List Nat) (v : Bytes) (h : C
     ∃ c' a, physWriteNew cp c v = .ok (c', a) ∧
       entryAt c' a = .ok (some (storedForm cp.cmp cp.threshold v)) ∧
       a ∉ own ∧ ColInv c' (a :: own) ∧ (∀ b ∈ own, entryAt c' b = entryAt c b) ∧ c'.rc = c.rc :=
-  step_insert cp c own v h hb
+  let ⟨c', a, h1, h2, h3, h4, h5, h6, _⟩ := step_insert cp c own v h hb
+  ⟨c', a, h1, h2, h3, h4, h5, h6⟩
 
 /-- R8_step (replace in place): `write_existing_value_plan(Set)` when the tier stays. -/
 theorem R8_step_replace (cp : Cmp) (c : PCol) (a : Nat) (own : List Nat) (v : Bytes)
@@ -153,7 +161,8 @@ theorem R8_step_move (cp : Cmp) (c : PCol) (a : Nat) (own : List Nat) (v : Bytes
     ∃ c' na, physWriteExisting cp c a v = .ok (c', some na) ∧
       entryAt c' na = .ok (some (storedForm cp.cmp cp.threshold v)) ∧
       na ∉ own ∧ ColInv c' (na :: own) ∧ (∀ b ∈ own, entryAt c' b = entryAt c b) ∧ c'.rc = c.rc :=
-  step_move cp c a own v h hne hb1 hb2
+  let ⟨c', na, h1, h2, h3, h4, h5, h6, _⟩ := step_move cp c a own v h hne hb1 hb2
+  ⟨c', na, h1, h2, h3, h4, h5, h6⟩
 
 /-- R8_step (remove): `write_plan_remove_node` / removal of a value. -/
 theorem R8_step_remove (c : PCol) (a : Nat) (own : List Nat) (h : ColInv c (a :: own))
@@ -421,6 +430,141 @@ theorem R8_set_existing (decomp : Bytes → Option Bytes) (cp : Cmp) (c : PCol) 
   rw [(R8_get decomp c2 t h2.1 k).2.2, hget]
   exact h4
 
+/-! ## R8_tx_<case>: whole transactions WITHOUT the hypothesis `hfinal` -/
+
+/-- R8_tx_insert_root_leaf.  The whole transaction `Set(k, v)` for an ABSENT key `k` on a tree that
+is a root leaf with room (header depth 0, between 1 and `ORDER - 1` separators: no split), as
+`BTreeChangeSet::write_plan` runs it and in its write-back order (`physInsertAbsent`: value entry,
+then the leaf written back - in place, or at a NEW address when its entry changes tier, which is the
+usual case since the leaf grows - then the header entry if the root moved; replayed against the real
+crate by `c04b phys ins`).  It succeeds; the joint invariant (TreeInv + per-tier SlotInv with header /
+nodes / values as the only owners) holds for the tree of the abstract `write_plan`
+(`C04.applyChanges t [Set k va]`, the tree of `C04b_batch_refines_tx`), whose enumeration is
+`put (toList t) k va`; the physical `get` of `k` returns the stored form of `v`, and the physical
+`get` of every key is the lookup in that enumeration.  No hypothesis about the final column.
+`hspace`: the 56-bit offset space is not exhausted (`SpaceOk`); `hdec`: the decompressor inverts the
+stored form of a header (A-compress); `hsb`, `hkl`: 64-bit addresses and 32-bit key lengths. -/
+theorem R8_tx_insert_root_leaf (decomp : Bytes → Option Bytes) (cp : Cmp) (c : PCol)
+    (t : C04.Tree Nat) (k : Key) (v : Bytes)
+    (hcfg : ∀ tier, SameCfg (tableOfTier c.rc tier) (c.tables tier))
+    (hj : JointInv decomp c t) (hd : t.depth = 0) (hne : t.root.seps ≠ [])
+    (hk : (C04.position t.root.seps k).1 = false) (hlen : t.root.seps.length < C04.ORDER)
+    (hkl : k.length < 2 ^ 32)
+    (hsb : ∀ s ∈ t.root.seps, s.1.length < 2 ^ 32 ∧ s.2 < 2 ^ 64)
+    (hdec : ∀ r, decodeEntry decomp (some (storedForm cp.cmp cp.threshold (headerBytes r 0))) =
+      .ok (some (headerBytes r 0)))
+    (hbv : (c.tables (newTier cp c v)).filled +
+      numParts (c.tables (newTier cp c v)) .noHash (storedForm cp.cmp cp.threshold v).1 ≤ 2 ^ 56)
+    (hspace : SpaceOk cp c
+      (numParts (c.tables (newTier cp c v)) .noHash (storedForm cp.cmp cp.threshold v).1)
+      (fun va => ⟨insertAtL t.root.seps (C04.position t.root.seps k).2 (k, va),
+        List.replicate (t.root.seps.length + 1) 0⟩)) :
+    ∃ c3 va, physInsertAbsent decomp cp c k v = .ok (some c3) ∧
+      JointInv decomp c3 (C04.applyChanges t [.set k va]).1 ∧
+      (∀ tier, SameCfg (tableOfTier c3.rc tier) (c3.tables tier)) ∧
+      (C04.applyChanges t [.set k va]).1.toList = C04.put t.toList k va ∧
+      physGetRaw decomp c3 k = .ok (some (storedForm cp.cmp cp.threshold v)) ∧
+      ∀ k', physGet decomp c3 k' =
+        (C04.lookup (C04.put t.toList k va) k').elim (.ok none) (valueAt decomp c3) := by
+  obtain ⟨c3, va, h1, h2, h3, h4⟩ :=
+    tx_insert_root_leaf decomp cp c t k v hcfg hj hd hne hk hlen hkl hsb hdec hbv hspace
+  have hti : C04.TreeInv t := hj.2.1
+  obtain ⟨_, hlist, hti'⟩ := C04.C04_change_refines t [.set k va] hti
+  have hlist' : (C04.applyChanges t [.set k va]).1.toList = C04.put t.toList k va := by
+    rw [hlist]; rfl
+  refine ⟨c3, va, h1, h2, h3, hlist', ?_, ?_⟩
+  · obtain ⟨hw, _⟩ := (C04.treeInvB_iff _).mp hti'
+    rw [(R8_get decomp c3 _ h2.1 k).2.2, C04.nodeGet_spec _ _ hw.1 hw.2 k]
+    have : C04.lookup (C04.applyChanges t [.set k va]).1.toList k = some va := by
+      rw [hlist', C04.lookup_put]; simp
+    unfold C04.Tree.toList at this
+    rw [this]
+    exact h4
+  · intro k'
+    rw [R8_get_lookup decomp c3 _ h2.1 hti' k', hlist']
+
+/-- R8_tx_remove_root_leaf.  The whole transaction `Dereference(k)` (column not ref-counted) for a
+key held by a root leaf (header depth 0) that keeps at least `ORDER/2` separators (no rebalance), as
+`write_plan` runs it (`physRemoveLeafKey`: value entry freed, leaf written back in place or at a new
+address - it shrinks, so it usually changes tier -, header entry rewritten if the root moved; replayed
+against the real crate by `c04b phys del`).  It succeeds; the joint invariant holds for the tree of
+the abstract `write_plan`, whose enumeration is `del (toList t) k`: the freed value slot is on the
+free list, nothing leaks; the physical `get` of every key is the lookup in that enumeration (`k`
+itself: none).  No hypothesis about the final column. -/
+theorem R8_tx_remove_root_leaf (decomp : Bytes → Option Bytes) (cp : Cmp) (c : PCol)
+    (t : C04.Tree Nat) (k : Key)
+    (hcfg : ∀ tier, SameCfg (tableOfTier c.rc tier) (c.tables tier))
+    (hj : JointInv decomp c t) (hd : t.depth = 0)
+    (hk : (C04.position t.root.seps k).1 = true) (hlen : C04.MIDDLE < t.root.seps.length)
+    (hsb : ∀ s ∈ t.root.seps, s.1.length < 2 ^ 32 ∧ s.2 < 2 ^ 64)
+    (hdec : ∀ r, decodeEntry decomp (some (storedForm cp.cmp cp.threshold (headerBytes r 0))) =
+      .ok (some (headerBytes r 0)))
+    (hspace : SpaceOk cp c 0
+      (fun _ => ⟨t.root.seps.eraseIdx (C04.position t.root.seps k).2,
+        List.replicate (t.root.seps.length + 1) 0⟩)) :
+    ∃ c3, physRemoveLeafKey decomp cp c k = .ok (some c3) ∧
+      JointInv decomp c3 (C04.applyChanges t [.del k]).1 ∧
+      (∀ tier, SameCfg (tableOfTier c3.rc tier) (c3.tables tier)) ∧
+      (C04.applyChanges t [.del k]).1.toList = C04.del t.toList k ∧
+      ∀ k', physGet decomp c3 k' =
+        (C04.lookup (C04.del t.toList k) k').elim (.ok none) (valueAt decomp c3) := by
+  obtain ⟨c3, h1, h2, h3⟩ := tx_remove_root_leaf decomp cp c t k hcfg hj hd hk hlen hsb hdec hspace
+  have hti : C04.TreeInv t := hj.2.1
+  obtain ⟨_, hlist, hti'⟩ := C04.C04_change_refines t [.del k] hti
+  have hlist' : (C04.applyChanges t [.del k]).1.toList = C04.del t.toList k := by
+    rw [hlist]; rfl
+  refine ⟨c3, h1, h2, h3, hlist', fun k' => ?_⟩
+  rw [R8_get_lookup decomp c3 _ h2.1 hti' k', hlist']
+
+/-- R8_tx_move_root_leaf (the tier-moving variant of `R8_set_existing`, at `JointInv` level).  The
+whole transaction `Set(k, v)` for a key held by a root leaf (header depth 0) whose new stored form
+goes to ANOTHER tier than the old value entry, as `write_plan` runs it (`physSetExisting` with
+`moved = true`: old value entry freed, new entry in the new tier, the leaf rewritten AT ITS ADDRESS
+with the new value address - proved, not assumed: the encoding of a node keeps its length when a value
+address changes, `encodeNode_length_keys`, so the node entry keeps its tier; replayed against the real
+crate by `c04b phys put`).  The joint invariant holds for the tree of the abstract `write_plan`, the
+physical `get` of `k` returns the stored form of `v`, every `get` is the lookup in `put (toList t) k va'`.
+`hroot`: the root entry sits in the tier of the re-encoding of the node it decodes to. -/
+theorem R8_tx_move_root_leaf (decomp : Bytes → Option Bytes) (cp : Cmp) (c : PCol)
+    (t : C04.Tree Nat) (k : Key) (v : Bytes)
+    (hcfg : ∀ tier, SameCfg (tableOfTier c.rc tier) (c.tables tier))
+    (hj : JointInv decomp c t) (hd : t.depth = 0)
+    (hk : (C04.position t.root.seps k).1 = true)
+    (hτv : ∀ x, t.root.seps[(C04.position t.root.seps k).2]? = some (k, x) →
+      Address.size_tier x ≠ newTier cp c v)
+    (hsb : ∀ s ∈ t.root.seps, s.1.length < 2 ^ 32 ∧ s.2 < 2 ^ 64)
+    (hroot : ∀ root n, root ∈ rootNodes decomp c → fetchNode decomp c root = .ok n →
+      Address.size_tier root = newTier noCompression c (C04.encodeNode n))
+    (hbv : (c.tables (newTier cp c v)).filled +
+      numParts (c.tables (newTier cp c v)) .noHash (storedForm cp.cmp cp.threshold v).1 ≤ 2 ^ 56)
+    (hspace : SpaceOk cp c
+      (numParts (c.tables (newTier cp c v)) .noHash (storedForm cp.cmp cp.threshold v).1)
+      (fun va' => ⟨t.root.seps.set (C04.position t.root.seps k).2 (k, va'),
+        List.replicate (t.root.seps.length + 1) 0⟩)) :
+    ∃ c2 va', physSetExisting decomp cp c k v = .ok (some (c2, true)) ∧
+      JointInv decomp c2 (C04.applyChanges t [.set k va']).1 ∧
+      (∀ tier, SameCfg (tableOfTier c2.rc tier) (c2.tables tier)) ∧
+      (C04.applyChanges t [.set k va']).1.toList = C04.put t.toList k va' ∧
+      physGetRaw decomp c2 k = .ok (some (storedForm cp.cmp cp.threshold v)) ∧
+      ∀ k', physGet decomp c2 k' =
+        (C04.lookup (C04.put t.toList k va') k').elim (.ok none) (valueAt decomp c2) := by
+  obtain ⟨c2, va', h1, h2, h3, h4⟩ :=
+    tx_move_root_leaf decomp cp c t k v hcfg hj hd hk hτv hsb hroot hbv hspace
+  have hti : C04.TreeInv t := hj.2.1
+  obtain ⟨_, hlist, hti'⟩ := C04.C04_change_refines t [.set k va'] hti
+  have hlist' : (C04.applyChanges t [.set k va']).1.toList = C04.put t.toList k va' := by
+    rw [hlist]; rfl
+  refine ⟨c2, va', h1, h2, h3, hlist', ?_, ?_⟩
+  · obtain ⟨hw, _⟩ := (C04.treeInvB_iff _).mp hti'
+    rw [(R8_get decomp c2 _ h2.1 k).2.2, C04.nodeGet_spec _ _ hw.1 hw.2 k]
+    have : C04.lookup (C04.applyChanges t [.set k va']).1.toList k = some va' := by
+      rw [hlist', C04.lookup_put]; simp
+    unfold C04.Tree.toList at this
+    rw [this]
+    exact h4
+  · intro k'
+    rw [R8_get_lookup decomp c2 _ h2.1 hti' k', hlist']
+
 /-! ## R8_tx_partial -/
 
 /-- One primitive step of a transaction on the column with its owner list. -/
@@ -554,6 +698,41 @@ example : (exCol2.map fun c => jointCheck exDecomp c) = some true := by decide +
 example : (exCol2.map fun c => okOf (physGet exDecomp c [1, 2])) = some (some (some [9, 9, 9, 9])) := by
   decide +kernel
 
+/-- non-vacuity of the `R8_tx_*` cases on the example column (a root leaf holding `[1,2]`): an
+absent key inserted (the leaf grows, changes tier, the header follows), five more, one removed,
+one value moved to another tier; the joint check holds after each, `get` sees the changes -/
+def exIns (c : Option PCol) (k : Key) (v : Bytes) : Option PCol :=
+  match c with
+  | some c => match physInsertAbsent exDecomp noCompression c k v with
+    | .ok (some c') => some c'
+    | _ => none
+  | none => none
+
+def exCol3 : Option PCol := exIns (exCol.map (·.1)) [3] [5, 5]
+def exCol4 : Option PCol :=
+  exIns (exIns (exIns (exIns exCol3 [4] [6]) [0] [7]) [2] [8]) [9, 9] [1]
+def exCol5 : Option PCol :=
+  match exCol4 with
+  | some c => match physRemoveLeafKey exDecomp noCompression c [3] with
+    | .ok (some c') => some c'
+    | _ => none
+  | none => none
+def exCol6 : Option PCol :=
+  match exCol5 with
+  | some c => match physSetExisting exDecomp noCompression c [4] (List.replicate 100 3) with
+    | .ok (some (c', true)) => some c'
+    | _ => none
+  | none => none
+
+example : (exCol3.map fun c => jointCheck exDecomp c) = some true := by decide +kernel
+example : (exCol3.map fun c => okOf (physGet exDecomp c [3])) = some (some (some [5, 5])) := by
+  decide +kernel
+example : (exCol5.map fun c => jointCheck exDecomp c) = some true := by decide +kernel
+example : (exCol5.map fun c => okOf (physGet exDecomp c [3])) = some (some none) := by decide +kernel
+example : (exCol6.map fun c => jointCheck exDecomp c) = some true := by decide +kernel
+example : (exCol6.map fun c => okOf (physGet exDecomp c [4])) =
+    some (some (some (List.replicate 100 3))) := by decide +kernel
+
 /-! ### audit -/
 
 #print axioms R8_abs_frame
@@ -578,6 +757,9 @@ example : (exCol2.map fun c => okOf (physGet exDecomp c [1, 2])) = some (some (s
 #print axioms R8_jointCheck_sound
 #print axioms R8_value_replace
 #print axioms R8_set_existing
+#print axioms R8_tx_insert_root_leaf
+#print axioms R8_tx_remove_root_leaf
+#print axioms R8_tx_move_root_leaf
 #print axioms R8_steps_inv
 #print axioms R8_tx_partial
 
